@@ -255,6 +255,54 @@ def run_infoonly(items):
     return p
 
 
+def run_option_histories(args):
+    """metadata-only decoding after every history of <= 2 earlier calls on the SAME decoder, each call full or
+    metadata-only, with or without ignore_value_expectation, on this message or on one of another edition: the probe
+    (metadata-only, data section overwritten, with and without ignore_value_expectation) must still succeed without
+    reading the data and give the sections 0-3 of the full decode"""
+    import itertools
+    from pybufrkit.decoder import Decoder
+    items, allitems = args
+    p = Partial()
+    menu = [(info, ive, other) for info in (False, True) for ive in (False, True) for other in (False, True)]
+    hists = [()] + [(a,) for a in menu] + list(itertools.product(menu, repeat=2))
+    for mname, b, spec, exp in items:
+        other = next(x[1] for x in allitems if x[2].edition != spec.edition)
+        with contextlib.redirect_stderr(io.StringIO()):
+            want = sections_0_3(Decoder().process(b))
+        pm = message.parse(b)
+        damaged = dict(corruptions(b, pm))['fill-ff']
+        want_idx = [k for k in (0, 1, 2, 3, 4) if k in pm.sections or k == 0]
+        p.n['nodes'] += 1
+        for h in hists:
+            for probe_ive in (False, True):
+                dec = Decoder()
+                with contextlib.redirect_stderr(io.StringIO()):
+                    for info, ive, oth in h:
+                        try:
+                            dec.process(other if oth else b, info_only=info, ignore_value_expectation=ive)
+                        except Exception:
+                            pass
+                    p.n['exec'] += 1
+                    p.n['edges'] += len(h) + 1
+                    case = {'message': mname, 'history': [list(x) for x in h], 'probe_ive': probe_ive}
+                    try:
+                        m = dec.process(damaged, info_only=True, ignore_value_expectation=probe_ive)
+                    except Exception as e:
+                        p.violation('history|infoonly-raises:' + type(e).__name__, case,
+                                    'after %r (info_only, ignore_value_expectation, other message) the metadata-only decode of the '
+                                    'message with overwritten data raised %r' % (h, e))
+                        continue
+                p.outcome((spec.edition, len(h), probe_ive))
+                idx = [sec.get_metadata('index') for sec in m.sections]
+                if sections_0_3(m) != want:
+                    p.violation('history|infoonly-differs', case, 'after %r sections 0-3 differ from the full decode' % (h,))
+                elif idx != want_idx or any(prm.name == 'template_data' for sec in m.sections for prm in sec):
+                    p.violation('history|infoonly-has-data', case,
+                                'after %r the metadata-only decode delivered sections %r (expected %r) / template data' % (h, idx, want_idx))
+    return p
+
+
 def extra_pool():
     """the C04 structures (every data length 0..32 x section-3 size x edition x section-2 variant)"""
     from mc.checks import c04
@@ -305,6 +353,11 @@ def run_corpus(msgs):
 
 
 def replay(part, case):
+    if part == 'infoonly-option-histories':
+        items = pool()
+        p = run_option_histories(([x for x in items if x[0] == case['message']], items))
+        return [{'sig': v['sig'], 'detail': v['detail']} for v in p.viol
+                if v['case']['history'] == case['history'] and v['case']['probe_ive'] == case['probe_ive']]
     if part == 'corpus':
         from mc.gen.corpus import TESTS, scan
         m = scan(open(os.path.join(TESTS, case['file']), 'rb').read())[case['index']]
@@ -351,6 +404,10 @@ def main(tier, seed):
     rep.add_part('infoonly', p, bounds={'messages': len(items), 'c04_structures': len(extra), 'xor_masks': ['ff', '01'],
                                         'fills': 4}, exhaustive=True,
                  extra={'note': 'quick visits the 1/8 slice (by VERIF_SEED) of the C04 structure pool, thorough all of it'})
+    p = merge_all(run_shards(run_option_histories, [([it], items) for it in items]))
+    rep.add_part('infoonly-option-histories', p, bounds={'messages': len(items), 'earlier_calls': '<= 2 from {full, metadata-only} x '
+                                                         '{ignore_value_expectation or not} x {this message, another edition}',
+                                                         'probes': 2})
     if tier == 'thorough':
         p = merge_all(run_shards(run_query, split(extra, 64)))
         p.n['nodes'], p.n['edges'] = p.n['exec'] + 1, p.n['exec']
